@@ -206,19 +206,21 @@ class ASTToPymbolic(ASTMapper):
 
     def map_Compare(self, expr):  # noqa
         # (expr left, cmpop* ops, expr* comparators)
-        op, = expr.ops
+        # a < b <= c means (a < b) and (b <= c)
+        operands = [self.rec(expr.left)] + [
+                self.rec(right) for right in expr.comparators]
+        links = []
+        for left, op, right in zip(operands, expr.ops, operands[1:]):
+            try:
+                comp = self.comparison_op_map[type(op)]
+            except KeyError:
+                raise NotImplementedError(
+                    f"{type(self).__name__} does not know how to map operator "
+                    f"'{type(op).__name__}'") from None
 
-        try:
-            comp = self.comparison_op_map[type(op)]
-        except KeyError:
-            raise NotImplementedError(
-                f"{type(self).__name__} does not know how to map operator "
-                f"'{type(expr.op).__name__}'") from None
+            links.append(p.Comparison(left, comp, right))
 
-        # FIXME: Support strung-together comparisons
-        right, = expr.comparators
-
-        return p.Comparison(self.rec(expr.left), comp, self.rec(right))
+        return links[0] if len(links) == 1 else p.LogicalAnd(tuple(links))
 
     def map_Call(self, expr):  # noqa
         # (expr func, expr* args, keyword* keywords)
